@@ -1,22 +1,4 @@
-NOTE_COMMON = ("Trusted: Coq 8.16.1 kernel (+vm_compute), no axioms; the hand-written Gallina model is tied to /repo only by the "
-               "correspondence run (OCaml extraction with ExtrOcamlBasic vs the Rust harness on generated inputs) and the translator; "
-               "see DESIGN.md section 4.")
-CHECKS = {
- "C21": {"level": "proof",
-         "text": "All ten statements of the property (round trip on the whole 56-bit range, shortest encoding, exact consumption, injectivity per length, strict = image of the encoder, lenient = two's-complement value, no panic, 0xff rejected) are proved for every value/byte string about the Gallina model of varint.rs; the model is run against the implementation on all 1- and 2-byte inputs and structured/random longer ones.",
-         "note": NOTE_COMMON, "technique": "Coq proof (8 size classes, lia with div/mod, finite byte sweeps by vm_compute) + model/implementation differential run"},
- "C15": {"level": "other",
-         "text": "Partly proved, partly explored. Proved for every tree (any size, depth, sharing; atoms up to 2^34-1 bytes) about the Gallina model of write_atom/ser/de/parse_atom/tools/serialized_length: node_to_bytes = the recursive ser, node_from_stream(ser t ++ rest) = (t, rest), is_canonical_serialization(ser t) = true, trusted serialized length = byte count, object-cache length = byte count (u32/saturating arithmetic, below 2^32-5). Not proved: the converse direction (decodes + judged canonical => re-serializes to the consumed bytes) and the untrusted length function; those are decided by a search on the implementation (random/structured byte strings and trees). The model is run against the implementation on trees with atoms at every prefix boundary, and its literals are pinned to constants the translator re-reads from the source.",
-         "note": NOTE_COMMON + " Level 'other' because the full conjunction is not proved (Props/C15.v names the missing conjuncts).",
-         "technique": "Coq proof (induction over trees, explicit-stack/fuel refinement) + translator pins + model/implementation differential run + implementation search"},
- "C16": {"level": "other",
-         "text": "Partly proved, partly explored. Proved for every byte string about the Gallina model: node_from_stream equals the recursive grammar, never reaches a panic site or runs out of its input-length fuel, and tree_hash_from_stream accepts the same strings with the same error, leaves the same remaining input and returns the tree hash of the same tree (for any hash function). Not proved: the same refinement for parse_triples (modelled and compared with the implementation only) and the canonical equivalence; those and memory use are decided by exploration: all strings of <= 2 bytes, structured mutations of valid encodings, random strings, through model vs implementation and the implementation's own cross-decoder comparison.",
-         "note": NOTE_COMMON + " Level 'other' because the full conjunction is not proved (Props/C16.v names the missing conjuncts).",
-         "technique": "Coq proof (generic stack-decoder refinement lemma instantiated twice) + model/implementation differential run (exhaustive <= 2 bytes) + implementation search"},
- "C29": {"level": "other",
-         "text": "Proved for every tree and every limit about the Gallina model of ser.rs/write_atom.rs: node_to_bytes_limit t L = Ok (ser t) when |ser t| <= L and Err OutOfMemory otherwise, wherever the limit is crossed (marker, prefix or body), and the same law for the LimitedWriter under any sequence of write_all chunks. The back-reference serializer's chunk sequence is not modelled; node_to_bytes_backrefs_limit is decided on the implementation for every limit 0..len+1 of generated trees. Model vs implementation on every limit of small trees and windows around chunk boundaries of larger ones.",
-         "note": NOTE_COMMON + " Level 'other' because the back-reference serializer half of the statement is explored, not proved.",
-         "technique": "Coq proof (fuelled explicit-stack loop = recursive ser under a limit) + model/implementation differential run over all limits + implementation search for the back-reference serializer"},
-}
-_pending = "check not built yet in this round (planned, see DESIGN.md section 7); not claimed until its theorem and correspondence exist"
+"""Reasons for the properties that are not claimed (every claimed property carries its own
+MANIFEST dict in lib/props/<id>.py; lib/mkmanifest.py assembles MANIFEST.json from both)."""
+_pending = "check not built yet (planned, see DESIGN.md section 7); not claimed until its theorem and correspondence exist"
 NOT_APPLICABLE = {("C%02d" % i): _pending for i in range(1, 33)}
